@@ -122,9 +122,9 @@ def cmd_run(d, checks):
             for tier in ["quick"]:
                 t0 = time.time()
                 rc, out = sh([os.path.join(ROOT, "check"), c, tier], cwd=ROOT, env=cenv, timeout=3600)
-                lines = [l for l in out.splitlines() if l.startswith("VIOLATION") or l.startswith("  key=")]
+                lines = [l for l in out.splitlines() if l.startswith("VIOLATION") or l.startswith("  key=") or "inconclusive" in l.lower()]
                 result["checks"][f"{c}:{tier}"] = dict(exit=rc, wall=round(time.time() - t0, 1), violation_lines=lines[:6])
-                print(f"{c} {tier}: exit {rc}", *lines[:4], sep="\n   ")
+                print(f"{c} {tier}: exit {rc}", *[l[:900] for l in lines[:6]], sep="\n   ")
     finally:
         clean_repo(demo_files)
     meta["evaluation"] = result
